@@ -25,23 +25,30 @@ METHOD_EVENTS = ['method_context_created', 'method_call', 'method_return_object'
 PROT_EVENTS = ['before_deserialize', 'after_deserialize', 'before_serialize', 'after_serialize', 'serialize']
 WSGI_EVENTS = ['wsgi_call', 'wsgi_return', 'wsgi_exception', 'wsgi_close']
 # names the modelled pipeline must never fire on a plain request (listened to on every manager all the same)
-OTHER_EVENTS = ['method_accept_document', 'method_return_push', 'method_redirect', 'method_redirect_exception',
-                'wsdl', 'wsdl_exception']
+OTHER_EVENTS = ['method_accept_document', 'method_return_push']
+REDIRECT_EVENTS = ['method_redirect', 'method_redirect_exception']
+WSDL_EVENTS = ['wsdl', 'wsdl_exception']
+METHOD_EVENTS = METHOD_EVENTS + REDIRECT_EVENTS      # everything fired through the method context
+WSGI_EVENTS = WSGI_EVENTS + WSDL_EVENTS
 ALL_EVENTS = METHOD_EVENTS + PROT_EVENTS + WSGI_EVENTS + OTHER_EVENTS
 LEAN_PROT_EV = {'before_deserialize': 'beforeDeserialize', 'after_deserialize': 'afterDeserialize',
                 'before_serialize': 'beforeSerialize', 'after_serialize': 'afterSerialize', 'serialize': 'serialize'}
 LEAN_EV = {'method_context_created': 'created', 'method_call': 'call', 'method_return_object': 'returnObject',
            'method_exception_object': 'exceptionObject', 'method_return_document': 'returnDocument',
            'method_exception_document': 'exceptionDocument', 'method_return_string': 'returnString',
-           'method_exception_string': 'exceptionString', 'method_context_closed': 'closed'}
+           'method_exception_string': 'exceptionString', 'method_context_closed': 'closed',
+           'method_redirect': 'redirect', 'method_redirect_exception': 'redirectException', 'wsdl': 'wsdl',
+           'wsdl_exception': 'wsdlException', 'wsgi_call': 'wsgiCall', 'wsgi_return': 'wsgiReturn',
+           'wsgi_exception': 'wsgiException', 'wsgi_close': 'wsgiClose'}
 PROBE = 0          # listener id of the observer: registered first on the application's manager, never raises
 
 IN_PROTOS = ['xml', 'soap11', 'soap12', 'json', 'yaml', 'msgpack', 'msgpackrpc', 'http']
 OUT_PROTOS = ['xml', 'soap11', 'soap12', 'json', 'yaml', 'msgpack', 'msgpackrpc', 'http']
-SHAPES = ['void', 'none', 'value', 'generator']
+SHAPES = ['void', 'none', 'value', 'generator', 'emptyGenerator', 'ignored']
 SPELLINGS = ['_evmgr', '_event_manager', '_evmgrs', '_event_managers']   # singular ones first
 LEAN_SPELLING = {'_evmgr': 'evmgr', '_event_manager': 'eventManager', '_evmgrs': 'evmgrs', '_event_managers': 'eventManagers'}
 XML_FAMILY = ('xml', 'soap11', 'soap12')
+ALT_FORM_INPUTS = ('xml', 'soap11', 'soap12', 'json')
 PRE_STAGES = ['createInDoc', 'decompose', 'genContexts', 'deserialize']
 FAIL_BEFORE_CALL = ['refuse'] + PRE_STAGES
 STAGE_METHOD = {'createInDoc': 'create_in_document', 'decompose': 'decompose_incoming_envelope',
@@ -113,8 +120,11 @@ _STEP = {
     ('pre', 'method_call'): 'called', ('pre', 'method_exception_object'): ('excObj', False, False),
     ('called', 'user'): 'ran', ('called', 'method_exception_object'): ('excObj', False, False),
     ('ran', 'method_return_object'): 'returned', ('ran', 'method_exception_object'): ('excObj', True, False),
-    ('returned', 'method_return_document'): 'retDoc', ('returned', 'method_exception_object'): ('excObj', True, True),
-    ('retDoc', 'method_return_string'): 'retStr', ('retStr', 'method_context_closed'): ('done', True, True, False),
+    ('ran', 'method_redirect'): 'redirected', ('ran', 'method_redirect_exception'): ('excObj', True, False),
+    ('returned', 'method_return_document'): 'retDoc1', ('returned', 'method_exception_object'): ('excObj', True, True),
+    ('redirected', 'method_return_document'): 'retDoc0',
+    ('retDoc1', 'method_return_string'): 'retStr1', ('retStr1', 'method_context_closed'): ('done', True, True, False),
+    ('retDoc0', 'method_return_string'): 'retStr0', ('retStr0', 'method_context_closed'): ('done', True, False, False),
 }
 
 
@@ -147,10 +157,11 @@ def truth(stage, co, ro):
     call_fail = (not pre) and co is not None
     dispatch_fail = (not pre) and (not call_fail) and stage == 'dispatch'
     user_ran = (not pre) and (not call_fail) and not dispatch_fail
-    user_fail = user_ran and stage == 'user'
-    returned = user_ran and not user_fail
+    redirected = user_ran and stage == 'redirect'
+    user_fail = user_ran and stage in ('user', 'redirectFail')
+    returned = user_ran and not user_fail and not redirected
     ret_fail = returned and ro is not None
-    ser_fail = returned and (not ret_fail) and stage == 'serialize'
+    ser_fail = returned and (not ret_fail) and stage in ('serialize', 'genBody')
     return {'u': user_ran, 'r': returned, 'f': pre or call_fail or dispatch_fail or user_fail or ret_fail or ser_fail, 'serFail': ser_fail}
 
 
@@ -172,8 +183,12 @@ class Env:
     """one Application with recording listeners on every manager, built from a world spec"""
 
     def __init__(self, inp, outp, world, user='ok', stage_inj=None, msgpack_keys='bytes', validator='soft', shape='value',
-                 no_out_string=False):
-        from spyne import Application, rpc, Service, Integer, Unicode, Fault, EventManager, Iterable
+                 no_out_string=False, kind='rpc', style='wrapped', dispatch_real=None):
+        from spyne import Application, rpc, mrpc, Service, Integer, Unicode, Fault, EventManager, Iterable, Ignored, ComplexModel
+        from spyne.error import Redirect
+        self.names = []           # (event, ctx.method_name, ctx.service_class is not None) as the observer sees them
+        self.files = []           # close() counts of the objects the function put into ctx.files
+        self.kind = kind
         self.out_none = []        # after each create_out_string: is ctx.out_string None (fault path?, none?)
         self.Fault = Fault
         self.trace = []
@@ -191,9 +206,11 @@ class Env:
             if f is None:
                 def f(ctx, *a, **kw):
                     env.trace.append([level, h, ev])
+                    if level == 'app' and h == PROBE:
+                        env.names.append((ev, ctx.method_name, ctx.service_class is not None))
                     k = raises.get((h, ev))
                     if k == 'fault':
-                        raise Fault('Client.Listener', 'listener %d' % h)
+                        raise Fault('Client.Listener' if len(env.trace) % 2 else 'Server.Listener', 'listener %d' % h)
                     if k == 'exc':
                         raise Boom('listener %d' % h)
                 self.fns[key] = f
@@ -219,27 +236,85 @@ class Env:
             register(em, 'meth%d' % i, m.get('regs', []), m.get('ops', ()))
             meth_mgrs.append(em)
 
-        def op(ctx, a):
+        class GoodRedirect(Redirect):
+            def do_redirect(self):
+                self.ctx.transport.resp_code = '302 Found'
+
+        class BadRedirect(Redirect):
+            def do_redirect(self):
+                raise Boom('do_redirect')
+
+        class Closable(object):
+            def __init__(self):
+                self.n = 0
+
+            def close(self):
+                self.n += 1
+
+        def body(ctx, a):
             env.user_calls += 1
             env.trace.append(['user'])
+            c = Closable()
+            env.files.append(c)
+            ctx.files.append(c)
             if user == 'fault':
                 raise Fault('Client.User', 'user')
             if user == 'exc':
                 raise Boom('user')
+            if user == 'redirect':
+                raise GoodRedirect(ctx, 'http://elsewhere/')
+            if user == 'redirectfail':
+                raise BadRedirect(ctx, 'http://elsewhere/')
             env.user_returns += 1
+            if user in ('genraise-fault', 'genraise-exc'):
+                def g():
+                    if user == 'genraise-fault':
+                        raise Fault('Client.Late', 'generator body')
+                    raise Boom('generator body')
+                    yield 'never'
+                return g()
             if user == 'unser':
                 return '\x00'            # lxml refuses NUL in text
             if shape in ('void', 'none'):
                 return None
             if shape == 'generator':
                 return (x for x in ['r%s' % (a,), 's'])
+            if shape == 'emptyGenerator':
+                return (x for x in [])
+            if shape == 'ignored':
+                return Ignored('r%s' % (a,))
             return 'r%s' % (a,)
-        kw = {} if shape == 'void' else {'_returns': Iterable(Unicode)} if shape == 'generator' else {'_returns': Unicode}
+        kw = {} if shape == 'void' else {'_returns': Iterable(Unicode)} if shape in ('generator', 'emptyGenerator') \
+            else {'_returns': Unicode}
         self.meth_mgrs = list(meth_mgrs)     # (the descriptor appends the service class's manager to the list it is given)
         if meth_mgrs:
             sp = world.get('spelling', '_evmgrs')
             kw[sp] = meth_mgrs[0] if sp in ('_evmgr', '_event_manager') else meth_mgrs
-        self.svc_cls = make_class(world['svc'], 'Svc', {'op': rpc(Integer(ge=0), **kw)(op)})
+        classes = ()
+        if kind == 'mrpc':
+            # a method of a ComplexModel class (Application.call_wrapper's @mrpc branch): no service class manager
+            if dispatch_real == 'when-false':
+                kw['_when'] = lambda self, ctx: False
+
+            class Thing(ComplexModel):
+                __namespace__ = 'tns'
+                i = Integer
+                op = mrpc(**kw)(lambda self, ctx: body(ctx, self.i))
+
+                @classmethod
+                def __respawn__(cls, ctx=None, filters=None):
+                    return None if dispatch_real == 'respawn-none' else cls(i=7)
+            self.method_name = 'Thing.op'
+            self.svc_cls = make_class(world['svc'], 'Svc', {'get': rpc(_returns=Thing)(lambda ctx: None)})
+        else:
+            self.method_name = 'op'
+            if style == 'empty':
+                decorated = rpc(_body_style='bare', **kw)(lambda ctx: body(ctx, 5))
+            elif style == 'bare':
+                decorated = rpc(Integer(ge=0), _body_style='bare', **kw)(lambda ctx, a: body(ctx, a))
+            else:
+                decorated = rpc(Integer(ge=0), **kw)(lambda ctx, a: body(ctx, a))
+            self.svc_cls = make_class(world['svc'], 'Svc', {'op': decorated})
         self.inp = make_proto(inp, validator)
         self.outp = make_proto(outp, validator)
         self.inp_name, self.outp_name, self.msgpack_keys = inp, outp, msgpack_keys
@@ -326,9 +401,13 @@ class Env:
             res['escaped'] = type(e).__name__
         return res
 
-    def run_wsgi(self, body, http=None):
+    def run_wsgi(self, body, http=None, chunked=True, wsdl_fails=False):
         from spyne.server.wsgi import WsgiApplication
-        srv = WsgiApplication(self.app)
+        srv = WsgiApplication(self.app, chunked=chunked)
+        if wsdl_fails:
+            def boom(url):
+                raise Boom('build_interface_document')
+            srv.doc.wsdl11.build_interface_document = boom
         self.attach_transport(srv)
         seen = {}
 
@@ -390,11 +469,22 @@ def make_proto(name, validator='soft'):
     return cls(validator=validator)
 
 
-def request(inp, variant, msgpack_keys='bytes'):
+def request(inp, variant, msgpack_keys='bytes', kind='rpc', style='wrapped'):
     """(body bytes, extra wsgi environ) of a request to `op(a)`; `variant` in ok / unknown / badarg / a raw body"""
     import msgpack
     if isinstance(variant, (bytes, bytearray)):
         return bytes(variant), None
+    if kind == 'mrpc' or style != 'wrapped':
+        # other shapes of the method (XML family and JSON only)
+        name = 'Thing.op' if kind == 'mrpc' else 'op'
+        if inp == 'json':
+            doc = {'self': {'i': 3}} if kind == 'mrpc' else (5 if style == 'bare' else {})
+            return json.dumps({name: doc}).encode(), None
+        inner = '<self><i>3</i></self>' if kind == 'mrpc' else ('5' if style == 'bare' else '')
+        call = '<%s xmlns="tns">%s</%s>' % (name, inner, name)
+        if inp == 'xml':
+            return call.encode(), None
+        return soap_env(S11 if inp == 'soap11' else S12, '<e:Body>%s</e:Body>' % call), None
     meth = 'nosuch' if variant == 'unknown' else 'op'
     arg = 'abc' if variant == 'badarg' else 5
     if inp == 'xml':
@@ -467,18 +557,29 @@ def run_case(case, msgpack_keys):
     inj = case['inj']
     stage_inj = (inj['stage'], inj['kind']) if inj['type'] == 'forced' else None
     env = Env(case['inp'], case['outp'], case['world'], user=case['user'], stage_inj=stage_inj, msgpack_keys=msgpack_keys,
-              shape=case.get('shape', 'value'))
+              shape=case.get('shape', 'value'), kind=case.get('kind', 'rpc'), style=case.get('style', 'wrapped'),
+              dispatch_real=case.get('dispatch_real'))
     if inj['type'] == 'raw':
         body, http = bytes.fromhex(inj['hex']), None
     else:
-        body, http = request(case['inp'], inj.get('variant', 'ok') if inj['type'] != 'refuse' else 'ok', msgpack_keys)
+        body, http = request(case['inp'], inj.get('variant', 'ok') if inj['type'] == 'real' else 'ok', msgpack_keys,
+                             case.get('kind', 'rpc'), case.get('style', 'wrapped'))
     if inj['type'] == 'refuse':
         http = dict(http or {}, **refusal_environ(inj['variant'], body))
+    if inj['type'] == 'wsdl':
+        http = {'REQUEST_METHOD': 'GET', 'QUERY_STRING': 'wsdl', 'PATH_INFO': '/'}
+    if inj.get('environ') == 'http-header':
+        http = dict(http or {}, HTTP_X_TRACE='abc', HTTP_COOKIE='k=v')
+    elif inj.get('environ') == 'empty-length':
+        http = dict(http or {}, CONTENT_LENGTH='')
+    elif inj.get('environ') == 'short-body':
+        http = dict(http or {}, CONTENT_LENGTH=str(len(body) + 10))
 
     def once():
-        res = env.run_wsgi(body, http) if case['transport'] == 'wsgi' else env.run_serverbase(body)
+        res = env.run_wsgi(body, http, case.get('chunked', True), bool(inj.get('fail'))) if case['transport'] == 'wsgi' else env.run_serverbase(body)
         res.update(trace=list(env.trace), stages=list(env.stages), user_calls=env.user_calls, user_returns=env.user_returns,
-                   out_none=list(env.out_none))
+                   out_none=list(env.out_none), names=list(env.names), files=[c.n for c in env.files],
+                   method_name=env.method_name)
         return res
     res = once()
     if case.get('then'):
@@ -490,7 +591,7 @@ def run_case(case, msgpack_keys):
         for i, ops in enumerate(then.get('meths', [])):
             if i < len(env.meth_mgrs):
                 apply_ops(env.meth_mgrs[i], ops, fn('meth%d' % i))
-        del env.trace[:], env.stages[:], env.out_none[:]
+        del env.trace[:], env.stages[:], env.out_none[:], env.names[:], env.files[:]
         env.user_calls = env.user_returns = 0
         res['second'] = once()
     return res
@@ -528,6 +629,8 @@ def refusal_environ(variant, body):
 def model_inj(case, obs):
     """the single failure of the call, for the model: intended (forced / user function) or observed (real input)"""
     inj = case['inj']
+    if inj['type'] == 'wsdl':
+        return 'none', 'fault', False
     if inj['type'] == 'refuse':
         return 'refuse', 'exc' if inj['variant'] == 'stream-error' else 'fault', False
     if inj['type'] == 'forced' and inj['stage'] != 'serialize':
@@ -541,6 +644,12 @@ def model_inj(case, obs):
         return 'dispatch', dis[0][1], False
     if case['user'] in ('fault', 'exc'):
         return 'user', case['user'], False      # the function raises: a forced serialize failure is never reached
+    if case['user'] == 'redirect':
+        return 'redirect', 'fault', False
+    if case['user'] == 'redirectfail':
+        return 'redirectFail', 'fault', False
+    if case['user'].startswith('genraise') and case['transport'] == 'wsgi':
+        return 'genBody', case['user'].split('-')[1], False     # handle_rpc pulls the first item before serialising
     if inj['type'] == 'forced':
         return inj['stage'], inj['kind'], False
     ser = [s for s in obs['stages'] if s[0] == 'serialize']
@@ -614,7 +723,7 @@ def measure_facts(msgpack_keys):
     for name, user, raises in (('ok', 'ok', ()), ('callRaise fault', 'ok', (('method_call', 'fault'),)),
                                ('callRaise exc', 'ok', (('method_call', 'exc'),)),
                                ('dispatchRaise fault', 'ok', ()), ('dispatchRaise exc', 'ok', ()),
-                               ('userRaise fault', 'fault', ()),
+                               ('userRaise fault', 'fault', ()), ('redirect', 'redirect', ()), ('redirectFail', 'redirectfail', ()),
                                ('userRaise exc', 'exc', ()), ('retRaise fault', 'ok', (('method_return_object', 'fault'),)),
                                ('retRaise exc', 'ok', (('method_return_object', 'exc'),))):
         env = Env('xml', 'xml', quiet_world(raises), user=user,
@@ -675,6 +784,31 @@ def measure_facts(msgpack_keys):
     j = next((k for k, o in enumerate(tr) if k > i and o[0] == 'outprot'), len(tr))
     f['wsgiSerFail'] = (probe_syms(tr[:j], i + 1), res['escaped'] is not None)
 
+    # WsgiApplication.handle_rpc when the body of the returned generator raises before its first item
+    f['wsgiGenFail'] = {}
+    for kind in ('fault', 'exc'):
+        env = Env('xml', 'xml', quiet_world(), user='genraise-' + kind, shape='generator')
+        res = env.run_wsgi(request('xml', 'ok')[0])
+        syms = probe_syms(env.trace)
+        i = syms.index('method_return_object') + 1 if 'method_return_object' in syms else len(syms)
+        rest = syms[i:]
+        cut = rest.index('method_exception_document') if 'method_exception_document' in rest else len(rest)
+        f['wsgiGenFail'][kind] = (rest[:cut], res['escaped'] is not None)
+
+    # WsgiApplication answering ?wsdl
+    w = quiet_world()
+    w['trans'] = {'regs': [[e, 9] for e in WSGI_EVENTS]}
+    env = Env('xml', 'xml', w)
+    res = env.run_wsgi(b'', {'REQUEST_METHOD': 'GET', 'QUERY_STRING': 'wsdl', 'PATH_INFO': '/'})
+    f['wsdlSteps'] = [('ctx', o[2]) if o[0] == 'app' else ('transport', o[2]) for o in env.trace if o[0] in ('app', 'trans')]
+    if res['escaped'] is not None:
+        f['wsdlSteps'].append(('transport', '<escaped>'))
+    env = Env('xml', 'xml', w)
+    res = env.run_wsgi(b'', {'REQUEST_METHOD': 'GET', 'QUERY_STRING': 'wsdl', 'PATH_INFO': '/'}, wsdl_fails=True)
+    f['wsdlFailSteps'] = [('ctx', o[2]) if o[0] == 'app' else ('transport', o[2]) for o in env.trace if o[0] in ('app', 'trans')]
+    if res['escaped'] is not None:
+        f['wsdlFailSteps'].append(('transport', '<escaped>'))
+
     # WsgiApplication.handle_rpc when the request input is refused (Fault) / the input stream fails (non-Fault)
     f['wsgiRefuse'] = {}
     for kind, variant in (('fault', 'too-long-declared'), ('exc', 'stream-error')):
@@ -733,12 +867,17 @@ GOOD_FACTS = {
              'dispatchRaise fault': (['method_call', 'method_exception_object'], False),
              'dispatchRaise exc': (['method_call', 'method_exception_object'], False),
              'userRaise fault': (['method_call', 'user', 'method_exception_object'], False),
+             'redirect': (['method_call', 'user', 'method_redirect'], False),
+             'redirectFail': (['method_call', 'user', 'method_redirect_exception'], False),
              'userRaise exc': (['method_call', 'user', 'method_exception_object'], False),
              'retRaise fault': (['method_call', 'user', 'method_return_object', 'method_exception_object'], False),
              'retRaise exc': (['method_call', 'user', 'method_return_object', 'method_exception_object'], False)},
     'genCtx': {'fault': (['method_exception_object'], False), 'exc': (['method_exception_object'], False)},
     'getIn': {'fault': (['method_exception_object'], False), 'exc': (['method_exception_object'], False)},
     'wsgiSerFail': (['method_exception_object'], False),
+    'wsgiGenFail': {'fault': (['method_exception_object'], False), 'exc': (['method_exception_object'], False)},
+    'wsdlSteps': [('ctx', 'method_context_created'), ('transport', 'wsdl'), ('ctx', 'method_context_closed')],
+    'wsdlFailSteps': [('ctx', 'method_context_created'), ('transport', 'wsdl_exception'), ('ctx', 'method_context_closed')],
     'wsgiRefuse': {'fault': (['method_exception_object'], False), 'exc': (['method_exception_object'], False)},
     'spellingReaches': {sp: True for sp in ['_evmgr', '_event_manager', '_evmgrs', '_event_managers']},
 }
@@ -787,6 +926,11 @@ def facts14 : Facts14 where
     | .fault => %s
     | .exc => %s
   wsgiSerFail := %s
+  wsgiGenFail := fun k => match k with
+    | .fault => %s
+    | .exc => %s
+  wsdlSteps := [%s]
+  wsdlFailSteps := [%s]
   wsgiRefuse := fun k => match k with
     | .fault => %s
     | .exc => %s
@@ -806,7 +950,11 @@ def facts14 : Facts14 where
 end SpyneModel.Generated
 ''' % (evs(f['ctxInit']), evs(f['ctxClose']), proc, fin,
        lean_meas(f['genCtx']['fault']), lean_meas(f['genCtx']['exc']), lean_meas(f['getIn']['fault']),
-       lean_meas(f['getIn']['exc']), lean_meas(f['wsgiSerFail']), lean_meas(f['wsgiRefuse']['fault']),
+       lean_meas(f['getIn']['exc']), lean_meas(f['wsgiSerFail']), lean_meas(f['wsgiGenFail']['fault']),
+       lean_meas(f['wsgiGenFail']['exc']),
+       ', '.join('.fire %s %s' % ('(.ctx false)' if src == 'ctx' else '.transport', lean_ev(e)) for src, e in f['wsdlSteps']),
+       ', '.join('.fire %s %s' % ('(.ctx false)' if src == 'ctx' else '.transport', lean_ev(e)) for src, e in f['wsdlFailSteps']),
+       lean_meas(f['wsgiRefuse']['fault']),
        lean_meas(f['wsgiRefuse']['exc']),
        '\n'.join('    | .%s => %s' % (LEAN_SPELLING[k], b(v)) for k, v in f['spellingReaches'].items()), ser_ok, ser_err, ser_part, none_ok, none_err)
 
@@ -825,11 +973,21 @@ def fact_witness_case(key, sub=None):
         what, _, kind = sub.partition(' ')
         if what == 'userRaise':
             base['user'] = kind
+        elif what == 'redirect':
+            base['user'] = 'redirect'
+        elif what == 'redirectFail':
+            base['user'] = 'redirectfail'
         elif what == 'dispatchRaise':
             base['inj'] = {'type': 'forced', 'stage': 'dispatch', 'kind': kind}
         elif what in ('callRaise', 'retRaise'):
             ev = 'method_call' if what == 'callRaise' else 'method_return_object'
             base['world'] = quiet_world(((ev, kind),))
+    elif key == 'wsgiGenFail':
+        base.update(user='genraise-' + sub, shape='generator')
+    elif key == 'wsdlSteps':
+        base['inj'] = {'type': 'wsdl'}
+    elif key == 'wsdlFailSteps':
+        base['inj'] = {'type': 'wsdl', 'fail': True}
     elif key == 'wsgiRefuse':
         base['inj'] = {'type': 'refuse', 'variant': 'too-long-declared' if sub == 'fault' else 'stream-error'}
     elif key == 'spellingReaches':
@@ -845,9 +1003,14 @@ def oracle(case, obs, inj):
     """the property, evaluated on the real trace; returns (finding id, description) or None"""
     stage, kind, _ = inj
     tag = '%s:%s:%s' % (case['transport'], stage, kind if stage != 'none' else '-')
+    if case['inj']['type'] == 'wsdl':
+        view = probe_syms(obs['trace'])
+        if obs['escaped'] is not None or view != ['method_context_created', 'method_context_closed']:
+            return ('wsdl-request', 'a ?wsdl request shows %s (escaped: %s), expected one context created and closed' % (view, obs['escaped']))
+        return None
     if obs['escaped'] is not None:
         # forced failures are protocol independent; an escaping failure of a real request is identified by the protocol too
-        if case['inj']['type'] == 'forced' or stage in ('none', 'user'):
+        if case['inj']['type'] == 'forced' or stage in ('none', 'user', 'redirect', 'redirectFail', 'genBody'):
             tag += ':forced'
         else:
             tag = '%s:%s:%s-input' % (stage, kind, case['inp'])
@@ -880,6 +1043,12 @@ def oracle(case, obs, inj):
             view, 'a fault' if st['f'] else 'a normal return', 'failed at ' + stage if exp['f'] else 'did not fail'))
     if obs['out_error'] is not None and obs['out_error'] != st['f']:
         return ('exception-object-vs-response:' + tag, 'ctx.out_error set=%s but the events say fault=%s' % (obs['out_error'], st['f']))
+    # what the function put into ctx.files is closed with the context, once; listeners can tell which method runs
+    if any(n != 1 for n in obs.get('files', [])):
+        return ('files-closed:' + tag, 'objects in ctx.files were closed %s times' % obs['files'])
+    for ev, name, has_svc in obs.get('names', []):
+        if (ev == 'method_call' and name != obs['method_name']) or (ev == 'method_context_created' and name is not None):
+            return ('method-name:' + ev, 'a %s listener reads ctx.method_name = %r (method: %r)' % (ev, name, obs['method_name']))
     # method_call / method_return_object reach every listener of every level, in registration order
     tr = obs['trace']
     for ev in ('method_call', 'method_return_object'):
@@ -977,15 +1146,38 @@ def proto_pairs():
     return pairs
 
 
+_COMBO = {}
+
+
+def combo_ok(inp, extra, keys='bytes'):
+    """does the plain request for this kind of method reach the function with this input protocol (the other request
+    forms are only used where they work; whether they should work is C11's / C03's business)"""
+    k = (inp, extra.get('kind', 'rpc'), extra.get('style', 'wrapped'))
+    if k not in _COMBO:
+        case = dict({'inp': inp, 'outp': 'xml', 'transport': 'serverbase', 'inj': {'type': 'real', 'variant': 'ok'},
+                     'user': 'ok', 'world': quiet_world()}, **extra)
+        try:
+            obs = run_case(case, keys)
+            _COMBO[k] = obs['user_returns'] == 1 and obs['escaped'] is None
+        except Exception:
+            _COMBO[k] = False
+    return _COMBO[k]
+
+
 def gen_cases(ctx):
     rng = ctx.rng
     cases = []
     raisers = [None] + [(lvl, ev, k) for lvl in ('app', 'meth', 'base', 'svc') for ev in ('method_call', 'method_return_object')
                         for k in ('fault', 'exc')]
 
-    def add(inp, outp, transport, inj, user, raiser, label, shape='value'):
-        cases.append({'inp': inp, 'outp': outp, 'transport': transport, 'inj': inj, 'user': user, 'shape': shape,
-                      'world': gen_world(rng, raiser), 'label': label})
+    def add(inp, outp, transport, inj, user, raiser, label, shape='value', **extra):
+        if extra.get('kind') == 'mrpc' and raiser and raiser[0] in ('base', 'svc'):
+            raiser = ('app',) + raiser[1:]
+        w = gen_world(rng, raiser)
+        if extra.get('kind') == 'mrpc':
+            w['svc'] = {'regs': []}          # a method of a ComplexModel class has no service class
+        cases.append(dict({'inp': inp, 'outp': outp, 'transport': transport, 'inj': inj, 'user': user, 'shape': shape,
+                           'world': w, 'label': label}, **extra))
 
     for inp, outp in proto_pairs():
         for transport in ('serverbase', 'wsgi'):
@@ -999,13 +1191,44 @@ def gen_cases(ctx):
                 add(inp, outp, transport, ok, user, None, 'user')
                 add(inp, outp, transport, ok, user, rng.choice(raisers[1:]), 'user+listener')
             # every shape of the result: no declared return / None / a value (above) / a generator
-            for shape in ('void', 'none', 'generator'):
+            for shape in [sh for sh in SHAPES if sh != 'value']:
                 for _ in range(4 if outp == 'http' and shape == 'void' else 1):
                     add(inp, outp, transport, ok, 'ok', None, 'shape', shape)
                 add(inp, outp, transport, ok, 'ok', rng.choice(raisers[1:]), 'shape+listener', shape)
                 add(inp, outp, transport, ok, rng.choice(['fault', 'exc']), None, 'shape+user', shape)
                 add(inp, outp, transport, {'type': 'forced', 'stage': rng.choice(PRE_STAGES + ['dispatch', 'serialize']),
                                            'kind': rng.choice(['fault', 'exc'])}, 'ok', None, 'shape+forced', shape)
+            # the function raises a Redirect (do_redirect works / raises)
+            for user in ('redirect', 'redirectfail'):
+                add(inp, outp, transport, ok, user, None, 'redirect', rng.choice(['value', 'none']))
+                add(inp, outp, transport, ok, user, rng.choice(raisers[1:]), 'redirect+listener')
+            # the body of the returned generator raises before its first item
+            if transport == 'wsgi' or outp in XML_FAMILY:
+                for k in ('fault', 'exc'):
+                    add(inp, outp, transport, ok, 'genraise-' + k, rng.choice(raisers[:2]), 'genraise', 'generator')
+            # other kinds of method: bare / empty body style, @mrpc method of a ComplexModel class
+            if inp in ALT_FORM_INPUTS:
+                for extra in ({'style': 'bare'}, {'style': 'empty'}, {'kind': 'mrpc'}):
+                    if not combo_ok(inp, extra):
+                        ctx.hit('method-kind-form-not-usable:%s:%s' % (inp, list(extra.values())[0]))
+                        continue
+                    add(inp, outp, transport, ok, 'ok', None, 'method-kind', **extra)
+                    add(inp, outp, transport, ok, rng.choice(['fault', 'exc', 'redirect']), rng.choice(raisers[:9]), 'method-kind+failure', **extra)
+                    add(inp, outp, transport, {'type': 'forced', 'stage': rng.choice(['deserialize', 'dispatch', 'serialize']),
+                                               'kind': rng.choice(['fault', 'exc'])}, 'ok', None, 'method-kind+forced', **extra)
+                if combo_ok(inp, {'style': 'empty'}):
+                    add(inp, outp, transport, ok, 'ok', rng.choice(raisers[:2]), 'method-kind', 'void', style='empty')   # BODY_STYLE_EMPTY
+                for how in ('respawn-none', 'when-false') if combo_ok(inp, {'kind': 'mrpc'}) else ():
+                    add(inp, outp, transport, ok, 'ok', rng.choice(raisers[:3]), 'mrpc-dispatch', kind='mrpc', dispatch_real=how)
+            if transport == 'wsgi' and inp != 'http':
+                # a ?wsdl request; requests with HTTP_* headers, an empty Content-Length, a body shorter than declared;
+                # a transport that does not chunk
+                add(inp, outp, transport, {'type': 'wsdl'}, 'ok', None, 'wsdl')
+                add(inp, outp, transport, {'type': 'wsdl', 'fail': True}, 'ok', None, 'wsdl-fails')
+                for v in ('http-header', 'empty-length', 'short-body'):
+                    add(inp, outp, transport, {'type': 'real', 'variant': 'ok', 'environ': v}, 'ok', rng.choice(raisers[:3]), 'environ')
+                add(inp, outp, transport, ok, 'ok', None, 'not-chunked', chunked=False)
+                add(inp, outp, transport, ok, rng.choice(['fault', 'exc']), None, 'not-chunked', chunked=False)
             # the transport refuses the request while reconstructing its input
             if transport == 'wsgi' and inp != 'http':     # (HttpRpc GET requests: the input stream is never read)
                 for variant in ('too-long-declared', 'bad-length', 'negative-length-text', 'stream-error'):
@@ -1160,6 +1383,8 @@ def probe_msgpack_keys():
 
 
 def case_query(case, inj):
+    if case['inj']['type'] == 'wsdl':
+        return {'op': 'wsdl', 'fails': bool(case['inj'].get('fail')), 'world': world_json(case['world'])}
     return {'op': 'trace', 'outp': case['outp'], 'transport': case['transport'], 'shape': case.get('shape', 'value'),
             'stage': inj[0], 'kind': inj[1],
             'inner': inj[2], 'world': world_json(case['world'])}
